@@ -1,0 +1,6 @@
+//go:build !verif
+// +build !verif
+
+package generic
+
+func verifHook(event string, thread, job int, init bool, likelihood float64) {}
